@@ -140,7 +140,12 @@ def cases(draw):
             'ssh_key': draw(st.sampled_from([None, None, True])), 'check_local_ip': draw(st.booleans())}
     return {'kind': kind, 'steps': steps, 'opts': opts, 'text_mode': draw(st.booleans()),
             'options': draw(st.sampled_from([{}, {'StrictHostKeyChecking': 'no'}])),
-            'commands': draw(st.lists(st.sampled_from(['echo alpha', 'echo two words', 'echo $ # >', 'true', '']), min_size=0, max_size=3))}
+            'commands': draw(st.lists(st.sampled_from(['echo alpha', 'echo two words', 'echo $ # >', 'true', '',
+                                                       'echo 0123456789-0123456789-0123456789-0123456789-0123456789']),
+                                      min_size=0, max_size=3)),
+            # the commands are typed ahead (all sent before the first prompt() call): several outputs and prompts
+            # may then arrive in one read
+            'typeahead': draw(st.booleans())}
 
 
 def reaches_shell(steps):
@@ -274,9 +279,16 @@ def check_case(case, col=None, sync_multiplier=0.4, T=1.5):
                     raise Violation('prompt-not-set', '%s: PROMPT %r does not match the prompt now printed %r' % (where, s.PROMPT, sets[-1]['data']))
                 # prompt() delimits each command's output exactly (not asked of a shell scripted to go away)
                 dying = len(steps[-1]) > 3
-                for cmd in ([] if dying else case['commands']):
+                cmds = [] if dying else case['commands']
+                if case.get('typeahead'):
+                    for cmd in cmds:
+                        s.sendline(cmd)
+                    if cmds:
+                        time.sleep(0.05)
+                for cmd in cmds:
                     conv = (lambda x: x) if case['text_mode'] else (lambda x: x.encode('utf-8'))
-                    s.sendline(cmd)
+                    if not case.get('typeahead'):
+                        s.sendline(cmd)
                     if not s.prompt(timeout=3):
                         raise Violation('prompt-timeout', '%s: prompt() timed out after %r' % (where, cmd))
                     want = cmd + '\r\n' + ((cmd[5:] + '\r\n') if cmd.startswith('echo ') else '')
